@@ -5,6 +5,8 @@
 # never modified and other work can go on.  Results are copied to /verif/seeded/<PROP>-<n>/.
 # inputs: /tmp/seed/<PROP>-out/change<n>/{patch.diff,demo*.rs,notes.md}; scratch worktree /tmp/seed/<PROP>
 set -u
+# two tests of the same property share the scratch worktree /tmp/seed/<PROP>: serialise them
+exec 9>/tmp/seed/$1.lock; flock 9
 P=$1; N=$2; TIER=${3:-quick}
 SRC=/tmp/seed/$P-out/change$N
 [ -d $SRC ] || SRC=/verif/seeded/$P-$N
